@@ -209,7 +209,11 @@ def check_fft(ctx, freqs):
     fft._last_asked = None
     out = []
     for f in freqs:
-        if isinstance(f, list):  # [table index, ulp offset]
+        if isinstance(f, list) and len(f) == 3:  # ["b", bucket, fraction]: a point inside a table bucket
+            k = f[1] % 128
+            lo = table[k - 1] if k > 0 else 0.0
+            f = lo + (table[k] - lo) * f[2]
+        elif isinstance(f, list):  # [table index, ulp offset]
             x = table[f[0] % 128]
             for _ in range(abs(f[1])):
                 x = math.nextafter(x, math.inf if f[1] > 0 else -math.inf)
@@ -477,7 +481,10 @@ def sub_fft(ctx, shard, n):
     f = st.one_of(st.tuples(st.integers(0, 127), st.integers(-2, 2)).map(list), st.floats(min_value=1.0, max_value=14000.0),
                   st.floats(min_value=-5.0, max_value=9.0), st.floats(min_value=12000.0, max_value=20000.0),
                   st.floats(min_value=0.0, max_value=1.0).map(lambda u: 8.0 * 2 ** (u * 10.7)))
-    ctx.given("fft", check_fft, st.lists(f, min_size=1, max_size=25), 300 if ctx.quick else 5000)
+    # local walks: lookups that wander over a few neighbouring buckets (this is where position memory can go stale)
+    walk = st.integers(1, 125).flatmap(lambda n: st.lists(
+        st.tuples(st.just("b"), st.integers(n - 1, n + 2), st.floats(min_value=0.001, max_value=1.0)).map(list), min_size=3, max_size=20))
+    ctx.given("fft", check_fft, st.lists(f, min_size=1, max_size=25) | walk | walk, 500 if ctx.quick else 5000)
 
 
 def sub_args(ctx, shard, n):
